@@ -273,7 +273,31 @@ func (rg *Range) valueAxioms(name string, v ssa.Value) {
 					rg.axiom(xl.minus(a)) // q <= x since e >= 1
 				}
 			}
+		case token.SHL:
+			// c << k with a constant c >= 0 and 0 <= k <= m: c <= value <= c << m
+			if c, ok := x.X.(*ssa.Const); ok && c.Value != nil && c.Value.Kind() == constant.Int {
+				if cv, exact := constant.Int64Val(c.Value); exact && cv >= 0 && cv < 1<<20 {
+					if kl, ok := rg.lin(x.Y); ok && rg.nonneg(kl) {
+						for m := int64(0); m <= 16; m++ {
+							if rg.entails(nil, linConst(m).minus(kl)) {
+								rg.axiom(a.addConst(-cv))
+								rg.axiom(linConst(cv << uint(m)).minus(a))
+								break
+							}
+						}
+					}
+				}
+			}
 		case token.SHR:
+			// an unsigned value of w bits shifted right by k is at most (2^w-1) >> k
+			if bits, signed, isInt := intBits(x.X.Type(), rg.p.IntBits); isInt && !signed && bits <= 32 {
+				if c, ok := x.Y.(*ssa.Const); ok && c.Value != nil {
+					if k, exact := constant.Int64Val(c.Value); exact && k >= 0 && k < int64(bits) {
+						rg.axiom(a)
+						rg.axiom(linConst(((int64(1) << uint(bits)) - 1) >> uint(k)).minus(a))
+					}
+				}
+			}
 			if xl, ok := rg.lin(x.X); ok && rg.nonneg(xl) {
 				rg.axiom(a)
 				rg.axiom(xl.minus(a))
